@@ -237,7 +237,7 @@ def coarse_events(ops):
         i += 1
     return ev
 
-def crash_stage(spec, tier):
+def crash_stage(spec, tier, only=None):
     from checks.c11 import resolve_creates, apply_ops
     from vlib.runner import Failure
     work = os.path.join(core.SCRATCH, f"c16crash_{os.getpid()}"); shutil.rmtree(work, ignore_errors=True); os.makedirs(work)
@@ -305,7 +305,7 @@ def crash_stage(spec, tier):
         shutil.rmtree(d, ignore_errors=True)
         return res
     with ThreadPoolExecutor(max_workers=core.JOBS) as ex:
-        results = list(ex.map(one, enumerate(crash_scenarios(tier))))
+        results = list(ex.map(one, enumerate([sc for sc in crash_scenarios(tier) if only is None or only in sc[0]])))
     shutil.rmtree(work, ignore_errors=True)
     obligations = []; failures = []; evaluations = 0; unsafe = {}; samples = []
     for r in results:
